@@ -445,7 +445,7 @@ def conj_entails(a, b):
     return all(entails_ge0(a, l) for l in b)
 
 
-def merge_disjuncts(ds, cap=12):
+def merge_disjuncts(ds, cap=24):
     """remove subsumed disjuncts; join if too many"""
     out = []
     for d in ds:
